@@ -159,6 +159,15 @@ class Summary:
         self.impure_closure = False
 
 
+def syn_call(what: ast.AST, call: ast.Call) -> ast.Call:
+    """The call `call` with its local callee replaced by what it stands for: a bound method / function expression, or a
+    `functools.partial(f, *pre, **kw)` whose fixed arguments are put in front."""
+    if isinstance(what, ast.Call):        # functools.partial(...)
+        return ast.copy_location(ast.Call(func=what.args[0], args=list(what.args[1:]) + list(call.args),
+                                          keywords=list(what.keywords) + list(call.keywords)), call)
+    return ast.copy_location(ast.Call(func=what, args=call.args, keywords=call.keywords), call)
+
+
 def bind_args(fn: ast.AST, call: ast.Call, skip_self: bool) -> T.Optional[T.Dict[str, ast.AST]]:
     a = fn.args  # type: ignore[attr-defined]
     params = [x.arg for x in a.posonlyargs + a.args]
@@ -199,6 +208,7 @@ class Analyzer:
         self._methods: T.Optional[T.Dict[str, T.Tuple[Module, str, ast.AST]]] = None
         self._imports: T.Dict[str, T.Dict[str, str]] = {}
         self.why_none: T.Dict[int, str] = {}          # id(fn) -> why the last summary request gave None
+        self._struct: T.Dict[int, T.Any] = {}
         self.sites: T.List[T.Tuple[T.Optional[ast.AST], str]] = []   # unfollowed callees: (function if its source is known, description)
         self._site_of: T.Dict[T.Any, int] = {}
         self._mentions: T.Dict[T.Tuple[int, str], bool] = {}
@@ -317,7 +327,8 @@ class FuncFlow:
         self.qual = qual
         self.fn = fn
         self.depth = depth
-        self.cfg = CFG(fn)  # type: ignore[arg-type]
+        shared = an._struct.get(id(fn))
+        self.cfg = shared[0] if shared else CFG(fn)  # type: ignore[arg-type]
         a = fn.args  # type: ignore[attr-defined]
         self.params = [x.arg for x in a.posonlyargs + a.args + a.kwonlyargs]
         if a.vararg:
@@ -327,16 +338,32 @@ class FuncFlow:
         self.params += [p for p in self.implicit if p not in self.params]   # captured variables of a closure
         self.method = is_method(fn) or 'self' in self.implicit
         self.selfname = 'self' if self.method else None
+        # a parameter annotated with the analysed class (a helper moved out of the class takes the object explicitly)
+        self.self_aliases: T.Set[str] = set()
+        if an.dyn_cls is not None:
+            names = {c.name for _, c in an.repo.mro(an.dyn_mod, an.dyn_cls)} if an.dyn_mod is not None else {an.dyn_cls.name}
+            for x in a.posonlyargs + a.args + a.kwonlyargs:
+                if x.arg != 'self' and x.annotation is not None:
+                    ann = norm(x.annotation).strip('\'"').split('.')[-1]
+                    if ann in names:
+                        self.self_aliases.add(x.arg)
+        self.selfnames: T.Set[str] = ({self.selfname} if self.selfname else set()) | self.self_aliases
         self.defs: T.List[Def] = []
         self.by_node: T.Dict[int, T.List[Def]] = {}
         self.attr_defs: T.Dict[str, T.List[T.Tuple[Node, ast.AST, T.Optional[int]]]] = {}
         self.local_names: T.Set[str] = set()
-        for p in self.params:
-            self._newdef(p, self.cfg.entry, True, None, param=True)
-        for n in self.cfg.nodes:
-            self._node_defs(n)
         self.IN: T.Dict[int, T.Dict[str, T.FrozenSet[int]]] = {}
-        self._reaching()
+        self._calls_cache: T.Dict[int, T.List[ast.Call]] = {}
+        if shared and shared[1] == tuple(self.params):
+            # the CFG, the definitions and the reaching-definitions solution do not depend on the summary depth
+            _, _, self.defs, self.by_node, self.attr_defs, self.local_names, self.IN, self._calls_cache = shared
+        else:
+            for p in self.params:
+                self._newdef(p, self.cfg.entry, True, None, param=True)
+            for n in self.cfg.nodes:
+                self._node_defs(n)
+            self._reaching()
+            an._struct[id(fn)] = (self.cfg, tuple(self.params), self.defs, self.by_node, self.attr_defs, self.local_names, self.IN, self._calls_cache)
         self.O: T.Dict[int, Val] = {}
         self.done: T.Set[int] = set()
         self._sinks: T.Optional[T.List[Sink]] = None
@@ -562,7 +589,7 @@ class FuncFlow:
 
     def _evdef(self, d: Def, look: T.Callable[[str, Node], Val]) -> Val:
         if d.param:
-            if d.name == self.selfname:
+            if d.name == self.selfname or d.name in self.self_aliases:
                 return frozenset(['self']), frozenset()
             return frozenset([d.name]), frozenset([f'param:{d.name}'])
         if d.value is None or isinstance(d.value, (ast.FunctionDef, ast.AsyncFunctionDef, ast.ClassDef)):
@@ -745,6 +772,10 @@ class FuncFlow:
                     return False          # the receiver was re-bound between taking the method and calling it
                 out.append(('attr', v))
                 return True
+            if isinstance(v, ast.Call) and call_name(v) in ('functools.partial', 'partial') and v.args \
+                    and isinstance(v.args[0], (ast.Attribute, ast.Name)) and not any(isinstance(a, ast.Starred) for a in v.args):
+                out.append(('attr', v))
+                return True
             if isinstance(v, ast.IfExp):
                 return of_expr(v.body, at) and of_expr(v.orelse, at)
             if isinstance(v, ast.Name):
@@ -765,6 +796,23 @@ class FuncFlow:
             if not of_expr(d.value, at):
                 return None
         return out or None
+
+    RECORD_MAKERS = {'T.NamedTuple', 'typing.NamedTuple', 'NamedTuple', 'collections.namedtuple', 'namedtuple', 'dataclasses.make_dataclass', 'make_dataclass'}
+
+    def _local_record_class(self, func: ast.Name, node: Node) -> bool:
+        """`Rec = NamedTuple('Rec', ...)` (or a class statement) in this function: calling it builds a record of its arguments."""
+        ds = self.IN[node.id].get(func.id, frozenset())
+        if not ds:
+            return False
+        for i in ds:
+            d = self.defs[i]
+            v = d.value
+            if isinstance(v, ast.ClassDef):
+                continue
+            if d.strong and isinstance(v, ast.Call) and call_name(v) in self.RECORD_MAKERS:
+                continue
+            return False
+        return True
 
     def closure_summary(self, fn: ast.AST) -> T.Tuple[T.Optional[Summary], T.List[str]]:
         """Summary of a function nested in this one; the variables it captures become extra (implicit) parameters."""
@@ -798,7 +846,7 @@ class FuncFlow:
     def _callee(self, call: ast.Call) -> T.Optional[T.Tuple[str, Module, str, ast.AST, bool]]:
         """(label path, module, qualified name, function, is self-call) for a repository callee, else None."""
         f = call.func
-        if isinstance(f, ast.Attribute) and isinstance(f.value, ast.Name) and f.value.id == self.selfname:
+        if isinstance(f, ast.Attribute) and isinstance(f.value, ast.Name) and f.value.id in self.selfnames:
             r = self.an.resolve_self(f.attr)
             if r is None:
                 self.an.unresolved.add(f'{self.qual}: self.{f.attr}')
@@ -825,7 +873,7 @@ class FuncFlow:
             return None
         parts = chain.split('.')
         root = parts[0]
-        if root in self.local_names or root == self.selfname:
+        if (root in self.local_names and root not in self.self_aliases) or root in self.selfnames:
             return None
         origin = self.an.imports(self.mod).get(root)
         if origin is None or not origin.startswith('mesonbuild'):
@@ -843,7 +891,7 @@ class FuncFlow:
     def _ev_call(self, e: ast.Call, node: Node, env: T.Dict[str, Val], look: T.Callable[[str, Node], Val],
                  index: T.Optional[int]) -> Val:
         f = e.func
-        if isinstance(f, ast.Attribute) and isinstance(f.value, ast.Name) and f.value.id == self.selfname and f.value.id not in env:
+        if isinstance(f, ast.Attribute) and isinstance(f.value, ast.Name) and f.value.id in self.selfnames and f.value.id not in env:
             cal = self._callee(e)
             path = f'self.{f.attr}()'
             return self._ev_repo_call(e, node, env, look, index, path, cal)
@@ -851,13 +899,15 @@ class FuncFlow:
             if f.id in env:
                 return self._maybe(None, f'local callable {f.id}', f'call:<local {f.id}>()', self._args_val(e, node, env, look))
             if f.id in self.local_names:
+                if self._local_record_class(f, node):
+                    return frozenset(), self._args_val(e, node, env, look)[1] | {f'call:{f.id}()'}
                 cands = self.resolve_callable(f, node)
                 if cands is None:       # unknown callable: nothing flows through it definitely
                     return self._maybe(None, f'local callable {f.id}', f'call:<local {f.id}>()', self._args_val(e, node, env, look))
                 vals = []
                 for kind, what in cands:
                     if kind == 'attr':
-                        syn = ast.copy_location(ast.Call(func=what, args=e.args, keywords=e.keywords), e)
+                        syn = syn_call(what, e)
                         vals.append(self._ev_call(syn, node, env, look, index))
                     else:
                         summ, free = self.closure_summary(what)
@@ -934,7 +984,7 @@ class FuncFlow:
                 return frozenset(ids), (der | self._maybe(cal[3], path, f'call:{path}', self._args_val(e, node, env, look), cal[4])[1])
             if bind is not None:
                 val = summ.elements[index] if use_index else summ.combined  # type: ignore[index]
-                mapped = self.map_summary(val, bind, lambda x: self._ev(x, node, env, look), keep_self=cal[4])
+                mapped = self.map_summary(val, bind, lambda x: self._ev(x, node, env, look), keep_self=cal[4] or bool(summ.ff and summ.ff.self_aliases))
                 der |= mapped[1]
         return frozenset(ids), frozenset(der)
 
@@ -998,6 +1048,13 @@ class FuncFlow:
         return out
 
     def node_calls(self, n: Node) -> T.List[ast.Call]:
+        r = self._calls_cache.get(n.id)
+        if r is None:
+            r = self._node_calls(n)
+            self._calls_cache[n.id] = r
+        return r
+
+    def _node_calls(self, n: Node) -> T.List[ast.Call]:
         if n.kind == 'with_enter':
             roots: T.List[ast.AST] = [i.context_expr for i in n.ast.items]  # type: ignore[union-attr]
         else:
@@ -1045,7 +1102,7 @@ class FuncFlow:
             if isinstance(f, ast.Name) and f.id in self.local_names:
                 for kind, what in self.resolve_callable(f, n) or []:
                     if kind == 'attr':
-                        handle(n, ast.copy_location(ast.Call(func=what, args=c.args, keywords=c.keywords), c))
+                        handle(n, syn_call(what, c))
                     else:
                         summ, free = self.closure_summary(what)
                         from_summary(n, c, summ, what, False, free, 'self' in free)
@@ -1057,7 +1114,7 @@ class FuncFlow:
                 out.append(Sink(n, fv.id, DEP_METHODS[f.attr], tuple(c.args) + tuple(k.value for k in c.keywords), None, short(c, 90), None))
             elif f.attr in ('add', 'update') and isinstance(fv, ast.Attribute) and fv.attr in DEP_FIELDS and isinstance(fv.value, ast.Name) and c.args:
                 out.append(Sink(n, fv.value.id, DEP_FIELDS[fv.attr], tuple(c.args), None, short(c, 90), None))
-            elif isinstance(fv, ast.Name) and fv.id == self.selfname and f.attr != 'add_build':
+            elif isinstance(fv, ast.Name) and fv.id in self.selfnames and f.attr != 'add_build':
                 cal = self._callee(c)
                 if cal is None or f.attr in CUTS:
                     return
@@ -1204,13 +1261,15 @@ class FuncFlow:
             f = c.func
             if isinstance(f, ast.Name):
                 if f.id in self.local_names:
+                    if self._local_record_class(f, n):
+                        return
                     cands = self.resolve_callable(f, n)
                     if cands is None:
                         out.append((n, f'call of the local callable `{f.id}`', args_of(c), None, None, False))
                         return
                     for kind, what in cands:
                         if kind == 'attr':
-                            handle(n, ast.copy_location(ast.Call(func=what, args=c.args, keywords=c.keywords), c))
+                            handle(n, syn_call(what, c))
                         else:
                             summ, free = self.closure_summary(what)
                             via_summary(n, c, summ, what, False, free, 'self' in free, f'closure {getattr(what, "name", "lambda")}()')
@@ -1226,7 +1285,7 @@ class FuncFlow:
                 if isinstance(f.value, ast.Call) and isinstance(f.value.func, ast.Name) and f.value.func.id == 'super':
                     out.append((n, f'super().{f.attr}()', args_of(c), None, None, True))
                     return
-                if isinstance(f.value, ast.Name) and f.value.id == self.selfname:
+                if isinstance(f.value, ast.Name) and f.value.id in self.selfnames:
                     if f.attr in CUTS:
                         return
                     cal = self._callee(c)
@@ -1303,7 +1362,7 @@ class FuncFlow:
         """(call text, labels of the arguments bound to `params`, node) for every call of self.<callee>(...) / <callee>(...)
         in this function and in the summarised helpers it calls (mapped back to this function's terms)."""
         out: T.List[T.Tuple[str, T.FrozenSet[str], ast.AST]] = []
-        r = self.an.resolve_self(callee) if self.selfname else None
+        r = self.an.resolve_self(callee) if self.selfnames else None
         if r is None and self.mod.has_func(callee):
             r = (self.mod, callee, self.mod.func(callee))
         if r is None:
@@ -1499,8 +1558,7 @@ class FuncFlow:
             for c0 in self.node_calls(n):
                 cs = [c0]
                 if isinstance(c0.func, ast.Name) and c0.func.id in self.local_names:
-                    cs = [ast.copy_location(ast.Call(func=w, args=c0.args, keywords=c0.keywords), c0)
-                          for k, w in (self.resolve_callable(c0.func, n) or []) if k == 'attr']
+                    cs = [syn_call(w, c0) for k, w in (self.resolve_callable(c0.func, n) or []) if k == 'attr']
                 for c in cs:
                     if call_name(c) in (f'self.{callee}', callee) and id(c0) not in seen:
                         seen.add(id(c0))
